@@ -11,7 +11,7 @@ from ..core import Failure
 from ..model import MP, compare, order_key, expvec, first_diff
 
 ID = "C07"
-BUDGET = {"quick": 600, "thorough": 2000}
+BUDGET = {"quick": 600, "thorough": 5000}
 TECHNIQUE = ("bounded-exhaustive universe of small polynomials (all pairs and triples, 4 sort settings) + "
              "Hypothesis-generated many-term same-degree pairs vs an independent reference comparator and the "
              "order axioms")
